@@ -21,13 +21,15 @@ PROPERTIES_V = "theories/Properties/C19.v"
 CASE_IMPORTS = "From GV Require Import Prelude.Base Model.H5Read.\nFrom Coq Require Import String.\nLocal Open Scope string_scope.\nLocal Open Scope list_scope."
 ALLOWED_AXIOMS: list = []
 REFUTED = [
-    "C19_optional_full (C19_optional_refuted: deleting the optional Root link of a file with nested groups re-parents entities)",
-    "C19_mandatory_full (C19_mandatory_refuted: a missing Name is replaced by the class default instead of an error / leaving the entity out)",
+    "C19_optional_full (C19_optional_refuted: deleting the optional Root link of a file with nested groups hangs a nested group "
+    "on the rebuilt root; witness corpus/C19/0001-root-link-nested.json)",
+    "C19_mandatory_full (C19_mandatory_refuted: a missing Name is replaced by the class default instead of an error / leaving the "
+    "entity out; witness corpus/C19/0002-name-defaulted.json)",
 ]
 PARTIAL = [
-    "C19_optional_deletion_tolerated_partial (every optional item except the Root link)",
+    "C19_optional_deletion_tolerated_partial (every optional item except the Root link; missing: the Root link, refuted)",
     "C19_mandatory_deletion_local_partial (error, or everything outside the described entities and their descendants unchanged; "
-    "the described entity itself may be kept with defaults instead of being left out)",
+    "missing: that the described entities are left out rather than kept with defaults, refuted)",
 ]
 TRUSTED = [
     "Coq 8.16.1 kernel + vm_compute (table theorem, witnesses, correspondence evaluation); no axioms (Print Assumptions: closed)",
@@ -53,13 +55,18 @@ RULE = (
     "kind, at least one per kind, thorough: every item; non-trivial = the deletion changed something observable or raised"
 )
 LEVEL_TEXT = (
-    "Proved in Coq for all laid-out entity trees (any depth/width, unique identifiers) and all single deletions of an attribute or "
-    "link except the Root link: the model reader returns an error or a tree that agrees with the intact content outside the "
-    "entities the item describes (and their descendants); for optional items it does not raise. The two full statements of "
-    "DESIGN §5 are refuted with witnesses (Root link of a nested file re-parents entities; a missing Name is defaulted). The "
-    "reader's guards are a table extracted by ast on every run and checked by vm_compute (20 consumed rows). Tie: every "
-    "single deletion of 7 library-produced files is replayed on geoh5py and compared with the model inside Coq (error kind, "
-    "lost set, altered set, fresh identifiers); the concatenated drillhole family is oracle-only."
+    "Proved in Coq (closed, no axioms) for all laid-out entity trees (any depth and width, unique identifiers, groups/objects/data "
+    "with types, colour/value maps, property groups, datasets) and ALL single deletions of one attribute or one link except the "
+    "Root link: the model reader raises or returns a tree that agrees with the intact content outside the entities the item "
+    "describes and their descendants (C19_mandatory_deletion_local_partial), and for items the format document makes optional it "
+    "does not raise (C19_optional_deletion_tolerated_partial); the intact file reads back as its content. Both full statements of "
+    "DESIGN 5/C19 are refuted with vm_compute witnesses that are replayed on geoh5py (Root link of a nested file re-parents "
+    "groups; a missing mandatory Name is defaulted). The reader's guards are extracted by ast on every run (80 rows) and the 20 "
+    "rows the model consumes are checked by vm_compute (C19_reader_guards/_table): removing a try/except, a .get or an `in` test "
+    "breaks them. Tie: every corpus file is checked to be a laid-out well-formed tree (scan_matchb, wfb, intact_ok) and every "
+    "selected single deletion of the 6 modelled family files is replayed on geoh5py and compared with the model inside Coq "
+    "(error kind, lost set, altered set, fresh identifiers, theorem instance); the concatenated (v2) drillhole family is "
+    "oracle-only; the Version-dependent choice of concatenated classes is not modelled."
 )
 TECHNIQUE = "Coq proof by induction on the loader's fuel over laid-out trees + extracted guard table + exhaustive single-fault replay"
 DRIVE_TIMEOUT = 1700
@@ -89,10 +96,11 @@ CHUNKS = {"groups": 6, "pcs": 10, "grids": 6, "drillhole": 6, "drillhole_v1": 6,
 def generate(rng, tier):
     cases = []
     sel_seed = rng.next() & 0xFFFFFF
+    useed = rng.next() & 0xFFFF
     for fam in FAMILIES:
         k = CHUNKS[fam]
         for c in range(k):
-            cases.append({"family": fam, "useed": 7, "chunk": [c, k], "rate": 3 if tier == "quick" else 1, "sel": sel_seed})
+            cases.append({"family": fam, "useed": useed, "chunk": [c, k], "rate": 3 if tier == "quick" else 1, "sel": sel_seed})
     return cases
 
 
@@ -386,6 +394,7 @@ def case_term(case, obs):
         sc = clist("(%s, %s, %s, %s)" % (caddr(a), camap(at), cbool(d), clist("(%s, %s)" % (ckey(k), caddr(t)) for k, t in ls))
                    for a, at, d, ls in obs["scan"])
         terms.append("scan_matchb s %s" % sc)
+        terms.append("wfb s")
         terms.append("intact_ok %s s" % cnat(FUEL))
     for ob in obs["obs"]:
         if obs.get("version_sensitive") and ob["kind"] == "attr|workspace|Version":
